@@ -518,6 +518,8 @@ func (fc *FnCtx) callStatic(st *State, callee *types.Func, call *ast.CallExpr) [
 		if s, ok := fc.info().Selections[sel]; ok && s.Kind() == types.MethodVal {
 			if rv, co, ok := fc.elemPtrRecv(st, sel, s); ok {
 				recv, copyOut = &rv, co
+			} else if rv, co, ok := fc.fieldPtrRecv(st, sel, s); ok {
+				recv, copyOut = &rv, co
 			} else {
 				rv := fc.methodRecv(st, sel, s)
 				recv = &rv
@@ -1236,6 +1238,43 @@ func (fc *FnCtx) elemPtrRecv(st *State, sel *ast.SelectorExpr, s *types.Selectio
 		v := app("select", fc.heapGet(st, key, sort), cell)
 		fc.checkFrameElem(st, base, i, ix.Pos())
 		fc.storeElem(st, base, i, Val{T: v, Ty: stt.Elem()}, stt.Elem())
+	}
+	return Val{T: cell, Ty: rt}, copyOut, true
+}
+
+// fieldPtrRecv: x.f.m() where m has a pointer receiver and f is a slice-typed field of *x (the compiler passes &x.f).
+// Copy-in / copy-out through a fresh cell: the callee sees *recv == x.f and what it leaves there is written back to
+// the field (with the caller's frame check). Sound because the interior pointer does not outlive the call and a callee
+// under contract can reach the field only through its receiver.
+func (fc *FnCtx) fieldPtrRecv(st *State, sel *ast.SelectorExpr, s *types.Selection) (Val, func(), bool) {
+	m := s.Obj().(*types.Func)
+	rt := m.Type().(*types.Signature).Recv().Type()
+	pt, wantPtr := rt.Underlying().(*types.Pointer)
+	if !wantPtr || len(s.Index()) != 1 {
+		return Val{}, nil, false
+	}
+	fx, ok := ast.Unparen(sel.X).(*ast.SelectorExpr)
+	if !ok {
+		return Val{}, nil, false
+	}
+	fsel, ok := fc.info().Selections[fx]
+	if !ok || fsel.Kind() != types.FieldVal {
+		return Val{}, nil, false
+	}
+	if _, isSlice := pt.Elem().Underlying().(*types.Slice); !isSlice {
+		return Val{}, nil, false
+	}
+	if _, baseIsPtr := fc.typeOf(fx.X).Underlying().(*types.Pointer); !baseIsPtr || len(fsel.Index()) != 1 {
+		return Val{}, nil, false
+	}
+	cur := fc.eval1(st, fx)
+	cell := fc.allocRef(st, "fieldcell")
+	key := "P$" + fc.typeName(pt.Elem())
+	sort := fmt.Sprintf("(Array Int %s)", fc.sortOf(pt.Elem()))
+	fc.heapSet(st, key, sort, app("store", fc.heapGet(st, key, sort), cell, cur.T))
+	copyOut := func() {
+		v := app("select", fc.heapGet(st, key, sort), cell)
+		fc.assign(st, fx, Val{T: v, Ty: cur.Ty})
 	}
 	return Val{T: cell, Ty: rt}, copyOut, true
 }
